@@ -86,13 +86,13 @@ Qed.
 (* the mixing weight is the arithmetic mean of c_p at the stream outlet and at the mixing node ... *)
 Theorem mixing_cp_is_mean : forall tout cp tfrom tto,
   thermexpr_cp_n tout cp tfrom tto = cbar cp tout tto.
-Proof. intros. unfold thermexpr_cp_n, cbar. cbv zeta. reflexivity. Qed.
+Proof. intros. unfold thermexpr_cp_n, cbar. cbv zeta. lra. Qed.
 
 (* ... the branch heat capacity is the same mean between inlet node and outlet, and it is get_branch_cp *)
 Theorem branch_cp_is_mean : forall tout cp tfrom tto,
   thermexpr_cp_b tout cp tfrom tto = cbar cp tfrom tout /\
   thermexpr_cp_b tout cp tfrom tto = branch_cp_cp tout cp tfrom.
-Proof. intros. unfold thermexpr_cp_b, branch_cp_cp, cbar. cbv zeta. split; reflexivity. Qed.
+Proof. intros. unfold thermexpr_cp_b, branch_cp_cp, cbar. cbv zeta. split; lra. Qed.
 
 (* the temperatures handed to the kernel: inlet = corrected from node, outlet = TOUTINIT, mix = corrected to node *)
 Theorem kernel_temperatures : forall tout cp tfrom tto,
